@@ -14,3 +14,23 @@ struct Rule *g_c_rule; struct nodevec g_c_out, g_c_in; unsigned g_c_exp, g_c_imp
 char g_scope_marker; char g_rules_marker;
 struct pmap { char _e; };
 unsigned g_stores, g_inserts; const void *g_store_map, *g_insert_scope; const char *g_store_name, *g_insert_name, *g_insert_val; pstr g_slot; _Bool g_name_valid;
+/* actOnEndBuildDecl: the value of a named build parameter is identified by the name it was looked up under */
+enum { PN_command = 1, PN_description, PN_deps, PN_depfile, PN_pool, PN_generator, PN_restat, PN_rspfile, PN_rspfile_content, PN_MAX };
+static inline int pn_class(const char *l) {
+  if (l[0] == 'c') return PN_command;
+  if (l[0] == 'd' && l[2] == 's') return PN_description;
+  if (l[0] == 'd' && l[3] == 's') return PN_deps;
+  if (l[0] == 'd') return PN_depfile;
+  if (l[0] == 'p') return PN_pool;
+  if (l[0] == 'g') return PN_generator;
+  if (l[0] == 'r' && l[1] == 'e') return PN_restat;
+  if (l[0] == 'r' && l[7] == 0) return PN_rspfile;
+  return PN_rspfile_content; }
+char g_pval[PN_MAX];            /* the text of parameter i is named by &g_pval[i] */
+_Bool g_pempty[PN_MAX];         /* ghost: does parameter i evaluate to the empty string? */
+unsigned g_plookups[PN_MAX]; const void *g_lookup_decl_ok, *g_lookup_tok_ok; unsigned g_nlookups;
+int g_deps_word;                /* ghost: the `deps` value is 0 "" / 1 "gcc" / 2 "msvc" / 3 anything else */
+_Bool g_pool_known, g_norm_ok; const void *g_pool_hit;
+/* what was stored into the command */
+const char *g_set_command, *g_set_description, *g_set_depfile, *g_set_rspfile, *g_set_rspcontent; int g_set_depsstyle = -1; const void *g_set_pool;
+int g_set_generator = -1, g_set_restat = -1; unsigned g_sets;
